@@ -202,13 +202,13 @@ def abbreviate(case):
     return {"method": sp["method"], "t0": sp["t0"], "T": sp["T"], "constraints": sp["constraints"], "rng": case["rng"]}
 
 
-def degenerate(c):
+def degenerate(c, params=()):
     """True when a shifted operand of the constraint cancels symbolically (CasADi drops it, and with it the exclusion of the
     nodes it would reach outside the horizon): the declared relation is then not the one the reference enumerates."""
     n = len(c["lhs"])
     for i in range(n):
         parts = [c["lhs"][i]] + [c[k][i if len(c[k]) == n else 0] for k in ("rhs", "lb", "ub") if k in c]
-        if E.lost_offsets(parts, signals_too=True):      # a shifted operand cancelled, or the whole relation collapsed to a constant
+        if E.lost_offsets(parts, signals_too=True, not_decision=params):   # a shifted operand cancelled, or no decision symbol is left
             return True
     return False
 
@@ -253,7 +253,7 @@ def instance_slacks(c, envs_by_grid, tr, N, M):
 def check(case, ctx):
     sp = case["spec"]
     m = sp["method"]
-    if any(degenerate(c) for c in sp["constraints"]):
+    if any(degenerate(c, {d["name"] for d in sp["params"]}) for c in sp["constraints"]):
         ctx.count("shifted_operand_cancels_symbolically")
         return []
     rng = np.random.default_rng(case["rng"])
